@@ -1,5 +1,5 @@
 """Engines: one function per family of properties; all verdicts come from TLC."""
-import json, os, random, shutil, sys, time, collections, glob, zlib
+import json, os, random, re, shutil, sys, time, collections, glob, zlib
 from common import *
 import seqplan
 
@@ -988,6 +988,7 @@ def engine_crash(pid, tier):
         stats = {}
         nimg = 0
         samples = []
+        pre_found = []
         for hname in names:
             # dry run with the I/O log
             d0 = os.path.join(shm, f"{hname}-dry")
@@ -1002,7 +1003,30 @@ def engine_crash(pid, tier):
             if any(e["ev"] == "Ack" and e["resp"]["kind"] in ("error", "panic") for e in events):
                 raise ToolError("the crash history does not run cleanly without a crash: " + json.dumps([e["resp"] for e in events if e["ev"] == "Ack"])[:500])
             shutil.rmtree(d0, ignore_errors=True)
-            stats[hname] = dict(iocalls=ncalls, requests=sum(1 for e in events if e["ev"] == "Ack"),
+            # ---- (0) the recorded file-system calls must be a behaviour of the WAL protocol model
+            wev, wst = cp.wal_events(ops, events)
+            wfile = os.path.join(wd, f"{hname}-wal.ndjson")
+            with open(wfile, "w") as wf:
+                for e_ in wev:
+                    wf.write(json.dumps(e_) + "\n")
+            wout = tlc("TraceWal.tla", os.path.join(SPEC, "TraceWal.cfg"), workers=1, timeout=900, env={"TRACE": wfile}, heap="2g",
+                       java_opts="-Xss1g", gc="-XX:+UseSerialGC")
+            mres = re.search(r'<<"WALRESULT", (\d+), (\d+), (.*)>>', wout)
+            wal_ok = bool(mres) and int(mres.group(1)) == int(mres.group(2)) + 1 and "is violated" not in wout
+            if not mres and "WALRESULT" not in wout:
+                raise ToolError("TraceWal did not run: " + wout[-1500:])
+            wal_findings = []
+            if not wal_ok:
+                where = mres.group(3) if mres else "?"
+                pos = int(mres.group(1)) if mres else 0
+                wal_findings.append(dict(sig=dict(engine="wal", stuck=where[:80]),
+                                         what=f"C04 (I/O protocol): the file-system calls recorded while history {hname} ran are not a behaviour of spec/WalDurability.tla: "
+                                              f"replay stopped at abstract event {pos} of {len(wev)}: {where}; previous events {wev[max(0, pos - 6):pos - 1]}"
+                                              + ("; invariant Durable violated" if "is violated" in wout else ""),
+                                         replay=dict(engine="wal", history=hname)))
+            stats[hname] = dict(wal_protocol=dict(wst, accepted=wal_ok, abstract_events=len(wev)))
+            pre_found += wal_findings
+            stats[hname].update(iocalls=ncalls, requests=sum(1 for e in events if e["ev"] == "Ack"),
                                 op_counts=dict(collections.Counter(o["op"] for o in ops)))
             stride = 1 if (tier == "thorough" or ncalls <= 700) else 2
             ks = list(range(1, ncalls + 1, stride))
@@ -1079,7 +1103,7 @@ def engine_crash(pid, tier):
         viols, total = judge(chunks)
         t2 = time.time()
         log(f"[crash] images {nimg} in {t1-t0:.1f}s judge {t2-t1:.1f}s events {total}")
-        found = []
+        found = list(pre_found)
         for v in viols:
             names_ = [n for n in v["names"] if n not in NOTE_NAMES]
             if not names_ or len(found) >= 40:
